@@ -95,6 +95,8 @@ def fn_verus_name(rec):
     """crate::module::Type::fn as Verus prints it in function-breakdown."""
     mod = rec["module"]
     cont = rec["container"]
+    if rec.get("free_name"):
+        return "toodee_v::" + rec["free_name"]
     base = "toodee_v"
     if mod:
         base += "::" + mod
@@ -423,6 +425,9 @@ def main():
         for r in recs:
             if r.get("sig_only"):
                 continue
+            if r.get("discharged_by_twin"):
+                # in-trait copy of a default method: its contract is discharged by the free twin (R16)
+                continue
             name = fn_verus_name(r)
             succ = vr.fn_success.get(name)
             clauses = count_clauses(gen_lines, r)
@@ -433,6 +438,8 @@ def main():
             ign = pm.get("ignore_clauses", [])
             ds = [d for d in vr.diags if d["fn"] is r and not any(g.replace(" ", "") in d["clause"].replace(" ", "") for g in ign)]
             other = [d for d in vr.diags if d["fn"] is r and d not in ds]
+            if r.get("twin_of"):
+                fid = fid + "  [trait default body, verified generically over every implementor as free fn %s]" % r["free_name"]
             frec = {"fn": fid, "repo_line": r["line"], "mode": r["mode"], "verus_name": name,
                     "ensures_clauses": len(clauses), "time_us": vr.fn_time_us.get(name, 0),
                     "back_end": "verus/z3"}
